@@ -4,7 +4,7 @@
    All statements are over the reals (IEEE rounding is outside every theorem). *)
 From Coq Require Import ZArith List PrimFloat Reals Lra Bool Permutation.
 From Coquelicot Require Import Coquelicot.
-From MJV Require Import Lib.Num Lib.NumR Model.Spatial Proof.SpatialProof Model.Inertia Proof.InertiaProof Proof.InertiaIntegrals.
+From MJV Require Import Lib.Num Lib.NumR Model.Spatial Proof.SpatialProof Model.Inertia Proof.InertiaProof Proof.InertiaIntegrals Model.Orient Proof.OrientProof.
 Import ListNotations.
 Open Scope R_scope.
 
@@ -179,6 +179,25 @@ Theorem C35_triangle_body_pointwise (glo ghi : Z) (geoms : list (geom R)) (i : i
   unitq q -> globalinertia lam q = inertialFull i -> triangle lam.
 Proof. exact (body_triangle_pt glo ghi geoms i q lam). Qed.
 Print Assumptions C35_triangle_body_pointwise.
+
+(* ---- fusing a static child body into its parent (mjCBody::AccumulateInertia: fusestatic, mjs_bodyToFrame).  For a child whose
+   frame in the parent is (pos, quat) with unit quaternions, the routine returns the two-entry parallel-axis accumulation (the one of
+   C35_parallel_axis) of the parent's inertial and of the child's inertial TRANSPORTED into the parent frame: position
+   pos + R(quat) ipos and orientation quat * iquat; and that composed orientation is exactly what rotates the child's tensor by the
+   child's body rotation:  R(quat*iquat) D R(quat*iquat)^T = R(quat) (R(iquat) D R(iquat)^T) R(quat)^T *)
+Theorem C35_fuse (res : cgeom R) (opose : pose R) (m2 : R) (ip2 : vec3 R) (iq2 : quat R) (in2 : vec3 R) :
+  unitp opose -> unitq iq2 ->
+  let child := (m2, add3 (fst opose) (mulMatVec3 (quat2Mat (snd opose)) ip2), mulQuat (snd opose) iq2, in2) in
+  let l := [res; child] in
+  mjMINVAL <= accMass l ->
+  accumulateInertia res opose (m2, ip2, iq2, in2) =
+    IFull (accMass l) (scl3 (accCom l) (/ accMass l)) (accInertia (scl3 (accCom l) (/ accMass l)) l) /\
+  mat6 (globalinertia in2 (mulQuat (snd opose) iq2)) =
+    mulMatMat3 (mulMatMat3 (quat2Mat (snd opose)) (mat6 (globalinertia in2 iq2))) (transpose3 (quat2Mat (snd opose))).
+Proof.
+  intros Uo Ui child l B. split; [exact (accumulateInertia_spec res opose m2 ip2 iq2 in2 Uo Ui B) | apply globalinertia_compose].
+Qed.
+Print Assumptions C35_fuse.
 
 (* the premises are satisfiable: two unit point-like spheres on the x axis; the identity quaternion diagonalises the tensor *)
 Example C35_example :
